@@ -191,6 +191,9 @@ pub enum GOp {
     FKofN(Curve, usize, usize),
     // ---- `assign_as_public_input` of every exposable type
     AsPi(PiKind),
+    // ---- map gadget (Poseidon Merkle map): nats = [key, value, k1, v1, k2, v2, ...] (initial content)
+    MapGet,
+    MapInsert,
 }
 
 impl GOp {
@@ -209,6 +212,7 @@ impl GOp {
             FetchBytes(..) | Base64(..) | JwtParse(_) => "parsing",
             FAssign(_) | FAdd(_) | FDouble(_) | FNegate(_) | FMul(_) | FIsEqual(_) | FSelect(_) | FMulByConst(..) | FKofN(..) => "foreign-ecc",
             AsPi(_) => "public-input",
+            MapGet | MapInsert => "map",
         }
     }
 }
@@ -231,7 +235,7 @@ impl OpDef for GOp {
             GOp::FKofN(..) => "KOutOfNPoints".into(),
             GOp::AsPi(PiKind::Big(_)) => "AssignAsPublicInputBigUint".into(),
             GOp::AsPi(k) => format!("AssignAsPublicInput{k:?}"),
-            GOp::FAssign(c) | GOp::FAdd(c) | GOp::FDouble(c) | GOp::FNegate(c) | GOp::FMul(c) | GOp::FIsEqual(c) | GOp::FSelect(c) | GOp::FMulByConst(c, _) | GOp::FKofN(c, ..) => {
+            GOp::FAssign(c) | GOp::FAdd(c) | GOp::FDouble(c) | GOp::FNegate(c) | GOp::FMul(c) | GOp::FIsEqual(c) | GOp::FSelect(c) | GOp::FMulByConst(c, _) => {
                 format!("{base}{c:?}")
             }
             _ => base,
@@ -244,7 +248,7 @@ impl OpDef for GOp {
         use GOp::*;
         let mut a = ZkStdLibArch { nr_pow2range_cols: 4, ..ZkStdLibArch::default() };
         match self {
-            Poseidon(_) => a.poseidon = true,
+            Poseidon(_) | MapGet | MapInsert => a.poseidon = true,
             HashToCurve(_) => {
                 a.poseidon = true;
                 a.jubjub = true
@@ -376,6 +380,31 @@ impl OpDef for GOp {
                 _ => unreachable!(),
             },
             "foreign-ecc" => self.synth_fecc(std, l, w, ex),
+            "map" => {
+                use midnight_circuits::{hash::poseidon::PoseidonChip, instructions::map::{MapCPU, MapInstructions}, map::cpu::MapMt};
+                let mut m = std.map_gadget().clone();
+                let content: Value<MapMt<F, PoseidonChip<F>>> = w.as_ref().map(|w| {
+                    let mut mm = <MapMt<F, PoseidonChip<F>> as MapCPU<F, F, F>>::new(&F::ZERO);
+                    for kv in w.nats[2..].chunks(2) {
+                        mm.insert(&kv[0], &kv[1]);
+                    }
+                    mm
+                });
+                m.init(l, content)?;
+                let root0 = m.succinct_repr();
+                ex.pi(std, l, &root0)?;
+                let key: AssignedNative<F> = std.assign(l, idx(&w, |w| w.nats[0]))?;
+                ex.pi(std, l, &key)?;
+                if matches!(self, MapGet) {
+                    let v = m.get(l, &key)?;
+                    ex.pi(std, l, &v)
+                } else {
+                    let val: AssignedNative<F> = std.assign(l, idx(&w, |w| w.nats[1]))?;
+                    m.insert(l, &key, &val)?;
+                    let root1 = m.succinct_repr();
+                    ex.pi(std, l, &root1)
+                }
+            }
             "public-input" => {
                 let AsPi(kind) = self else { unreachable!() };
                 // the cells are constrained by `assign_as_public_input` itself; only log them
